@@ -347,7 +347,8 @@ def configs(tier, seed):
         for w in (None, "shared"):
             add("sense", img=img, nc=nc, coord=cn, weights=w, cost=200)
     # recon apps
-    for img, nc in [([1, 4], 2), ([2, 2], 2)] + ([([2, 3], 2), ([4, 1], 3)] if full else []):
+    # (recon apps: image shapes whose unitary DFT scaling is rational - the solvers take norms, which need the field Q(i))
+    for img, nc in [([1, 4], 2), ([2, 2], 2)] + ([([4, 1], 3), ([2, 2], 3)] if full else []):
         for lam in ("0", "half"):
             for w in (None, "shared"):
                 for cbs in (None, 1):
